@@ -187,7 +187,8 @@ def check_case(rec, case):
         R1, R2 = case['ref1'], case['ref2']
         rec.note_case(case, case['cls'], nontriv_lang(R1) and nontriv_lang(R2))
         for name in ('dfa_union', 'dfa_intersection', 'dfa_symmetric_difference'):
-            D1, D2 = adapt.build_dfa(R1), adapt.build_dfa(R2)
+            scr = case.get('scr')
+            D1, D2 = adapt.build_dfa(R1, scramble=scr), adapt.build_dfa(R2, scramble=None if scr is None else scr + 1)
             o = call(getattr(da, name), D1, D2)
             if not o.ok:
                 report_failure(rec, o, name)
@@ -199,7 +200,7 @@ def check_case(rec, case):
         R = case['ref']
         rec.note_case(case, case['cls'], nontriv_lang(R))
         for name in ('dfa_complement', 'dfa_reverse', 'dfa_no_prefix', 'dfa_no_extend', 'dfa_remove_unreachable_states', 'dfa_make_total', 'dfa_make_total_in_place'):
-            D = adapt.build_dfa(R)
+            D = adapt.build_dfa(R, scramble=case.get('scr'))
             o = call(getattr(da, name), D)
             if not o.ok:
                 report_failure(rec, o, name)
@@ -216,7 +217,7 @@ def check_case(rec, case):
         R = case['ref']
         rec.note_case(case, case['cls'], nontriv_lang(R))
         for name in ('dfa_no_prefix', 'dfa_no_extend', 'dfa_remove_unreachable_states', 'dfa_reverse'):
-            o = call(getattr(da, name), adapt.build_dfa(R))
+            o = call(getattr(da, name), adapt.build_dfa(R, scramble=case.get('scr')))
             if not o.ok:
                 report_failure(rec, o, name)
     elif kind == 'partial':
@@ -321,7 +322,13 @@ def gen_cases(rec, rng, tier):
         L = rng.sample(pool, rng.randint(0, min(12, len(pool))))
         L2 = rng.sample(pool, rng.randint(0, min(6, len(pool))))
         yield {'kind': 'lang', 'cls': 'random_language', 'L': sorted(L), 'L2': sorted(L2)}
-    for S in ('', 'a', 'ab', 'abc'):
+    for _ in range(300 if thorough else 80):
+        S = rng.choice(['a#', '#$', '01', '_-', 'a_#', '$0', '.,', ' a'])
+        pool = list(fa.words_upto(S, 4))
+        L = rng.sample(pool, rng.randint(0, min(10, len(pool))))
+        L2 = rng.sample(pool, rng.randint(0, min(5, len(pool))))
+        yield {'kind': 'lang', 'cls': 'random_language_special_symbols', 'L': sorted(L), 'L2': sorted(L2)}
+    for S in ('', 'a', 'ab', 'abc', '#', '0#'):
         for n in range(0, 5):
             yield {'kind': 'words', 'cls': 'words_up_to_n', 'Sigma': list(S), 'n': n}
 
@@ -333,4 +340,4 @@ def run(rec, rng, tier):
         check_case(rec, rc)
         return
     for case in gen_cases(rec, rng, tier):
-        check_case(rec, case)
+        check_case(rec, common.with_scramble(case))
